@@ -566,9 +566,14 @@ pub fn run(ctx: &mut Ctx) {
         }
     }
     ctx.extra.insert("cli_runs".into(), json!(ctx.traces));
+    // what is written before or after a description block is code: a fault there is reported
+    crate::oscat::run_into(ctx, if thorough { 7 } else { 6 });
 }
 
 pub fn replay(case: &Value) -> Result<String, String> {
+    if case["mode"] == json!("description-blocks") {
+        return crate::oscat::replay(case["text"].as_str().ok_or("text")?);
+    }
     let files: Vec<String> = case["files"].as_array().ok_or("files")?.iter().map(|x| x.as_str().unwrap_or("").to_string()).collect();
     let order: Option<Vec<usize>> = case["order"].as_array().map(|a| a.iter().map(|x| x.as_u64().unwrap_or(0) as usize).collect());
     let mut p = FileBackedProject::new();
